@@ -48,6 +48,8 @@ Inductive op : Type :=
 | OCollect                                (* GC_Mark + GC_Sweep of the current thread's collector *)
 | OTlsSet (k v : nat) | OTlsGet (k : nat) | OTlsMem (k : nat) | OTlsRem (k : nat)
 | OEmit (v : nat)
+| OPub (k : nat)                          (* publish a result object that is NOT owned by the collector's sweep:
+                                             k = 0 new_root (registered as a root), k = 1 new_raw; it outlives the thread *)
 | OWork (k n : nat)                       (* container work; opaque for the model *)
 | OObs                                    (* observe depth / active / #tls keys / #roots *)
 | OYield
@@ -57,7 +59,9 @@ Inductive op : Type :=
 | OWith (m : mid) (body : list op)
 | OTryOnce (m : mid) (body : list op)      (* if (trylock(m)) { body; unlock(m); }  — skipped when busy *)
 | OIncr (m : mid)                         (* cell = cell + 1, as a load and a store *)
-| OSpawn (t : tid) | OJoin (t : tid) | OPeek (t : tid).
+| OSpawn (t : tid) | OJoin (t : tid) | OPeek (t : tid)
+| OSpawnCopy (v u : tid).                 (* thr v = copy(Thread object of u); call(thr v): u = the current thread or a
+                                             finished, joined thread — Thread_Assign copies u's TLS table (a snapshot) *)
 
 Inductive kitem : Type :=
 | KOp (o : op)
@@ -67,6 +71,7 @@ Inductive kitem : Type :=
 
 Inductive ev : Type :=
 | EvEmit (v : nat)
+| EvPub (k s : nat)
 | EvWork (k n : nat)
 | EvGet (k v : nat)
 | EvMem (k : nat) (b : bool)
@@ -199,6 +204,8 @@ Definition lstep (ok : bool) (l : lstate) : lstate :=
           | None => do_throw l key_error c
           end
       | OEmit v => set_code (emit l (EvEmit v)) c
+      | OPub k =>       (* takes a serial number; never enters the registry of sweepable objects, never finalised *)
+          mkL (me l) c (S (serial l)) (reg l) (roots l) (fin l) (exc l) (tls l) (EvPub k (serial l) :: out l) (done l) (fatal l)
       | OWork k n =>
           (* kind 4 = n times `try { get(t, missing) } catch (e in KeyError) { }`: the record is left
              as the last caught KeyError leaves it *)
@@ -213,7 +220,7 @@ Definition lstep (ok : bool) (l : lstate) : lstate :=
       | OWith m body => set_code l (map KOp body ++ KEndWith m :: c)
       | OTryOnce m body => if ok then set_code l (map KOp body ++ KEndWith m :: c) else set_code l c
       | OIncr m => set_code l (KStore m :: c)
-      | OLock _ | OUnlock _ | OTrySpin _ | OSpawn _ | OJoin _ | OPeek _ => set_code l c
+      | OLock _ | OUnlock _ | OTrySpin _ | OSpawn _ | OJoin _ | OPeek _ | OSpawnCopy _ _ => set_code l c
       end
   | KEndTry cs h :: c =>
       (* body completed: exception_try_end, then exception_catch looks at `active` *)
@@ -242,6 +249,7 @@ Record sstate := mkS {
   seen : list (tid * list ev);(* result traces of other threads read by OPeek, newest first *)
   hist : list bool;           (* ghost: one entry per executed instruction, newest first: the trylock answer
                                  of an OTryOnce, true for everything else *)
+  tls0 : list (nat * nat);    (* ghost: the TLS snapshot the Thread object was created with (copy of a Thread), [] otherwise *)
   past : list (list bool);    (* ghost: the histories of the earlier, completed runs of this Thread object, newest first *)
   ub : bool }.                (* undefined behaviour reached (unlock of a mutex not held, second join, ...) *)
 
@@ -263,7 +271,7 @@ Fixpoint upd {A} (l : list A) (i : nat) (x : A) : list A :=
 Definition fupd {A} (f : nat -> A) (i : nat) (x : A) : nat -> A :=
   fun j => if j =? i then x else f j.
 
-Definition sinit (st : bool) : sstate := mkS st false [] 0 [] [] [] false.
+Definition sinit (st : bool) : sstate := mkS st false [] 0 [] [] [] [] false.
 Definition steps (s : sstate) : nat := length (hist s).
 
 Fixpoint init_from (t : tid) (ps : list (list op)) : list (lstate * sstate) :=
@@ -277,16 +285,19 @@ Definition ginit (ps : list (list op)) : gstate :=
   mkG (init_from 0 ps) (fun _ => None) (fun _ => 0) (mkE 0 false None) false ps.
 
 Definition bump (ok : bool) (s : sstate) : sstate :=
-  mkS (started s) (joined s) (holding s) (tmp s) (seen s) (ok :: hist s) (past s) (ub s).
-Definition set_holding (s : sstate) h := mkS (started s) (joined s) h (tmp s) (seen s) (hist s) (past s) (ub s).
-Definition set_tmp (s : sstate) v := mkS (started s) (joined s) (holding s) v (seen s) (hist s) (past s) (ub s).
-Definition add_seen (s : sstate) x := mkS (started s) (joined s) (holding s) (tmp s) (x :: seen s) (hist s) (past s) (ub s).
-Definition set_ub (s : sstate) := mkS (started s) (joined s) (holding s) (tmp s) (seen s) (hist s) (past s) true.
-Definition set_started (s : sstate) := mkS true (joined s) (holding s) (tmp s) (seen s) (hist s) (past s) (ub s).
+  mkS (started s) (joined s) (holding s) (tmp s) (seen s) (ok :: hist s) (tls0 s) (past s) (ub s).
+Definition set_holding (s : sstate) h := mkS (started s) (joined s) h (tmp s) (seen s) (hist s) (tls0 s) (past s) (ub s).
+Definition set_tmp (s : sstate) v := mkS (started s) (joined s) (holding s) v (seen s) (hist s) (tls0 s) (past s) (ub s).
+Definition add_seen (s : sstate) x := mkS (started s) (joined s) (holding s) (tmp s) (x :: seen s) (hist s) (tls0 s) (past s) (ub s).
+Definition set_ub (s : sstate) := mkS (started s) (joined s) (holding s) (tmp s) (seen s) (hist s) (tls0 s) (past s) true.
+Definition set_started (s : sstate) := mkS true (joined s) (holding s) (tmp s) (seen s) (hist s) (tls0 s) (past s) (ub s).
 (* a new run of the thread: not joined yet, empty history, the old one archived *)
 Definition relaunch (s : sstate) : sstate :=
-  mkS true false (holding s) (tmp s) (seen s) [] (hist s :: past s) (ub s).
-Definition set_joined (s : sstate) := mkS (started s) true (holding s) (tmp s) (seen s) (hist s) (past s) (ub s).
+  mkS true false (holding s) (tmp s) (seen s) [] (tls0 s) (hist s :: past s) (ub s).
+(* a Thread object made by copy(): started, with the inherited snapshot *)
+Definition launch_copy (s : sstate) (tau : list (nat * nat)) : sstate :=
+  mkS true false (holding s) (tmp s) (seen s) [] tau [] (ub s).
+Definition set_joined (s : sstate) := mkS (started s) true (holding s) (tmp s) (seen s) (hist s) (tls0 s) (past s) (ub s).
 
 Definition rem_mid (m : mid) (h : list mid) : list mid := filter (fun x => negb (x =? m)) h.
 
@@ -368,6 +379,18 @@ Definition gstep (t : tid) (g : gstate) : gstate :=
             else advance (set_thr g u (lu, set_started su)) t l s
         | None => set_thr g t (l, set_ub s)
         end
+    | KOp (OSpawnCopy v u) :: _ =>
+        match nth_error (thr g) v, nth_error (thr g) u, nth_error (progs g) v with
+        | Some (lv, sv), Some (lu, su), Some p =>
+            if started sv then set_thr g t (l, set_ub s)
+            else if (u =? t) || (started su && done lu && joined su) then
+              (* the new Thread object starts with a SNAPSHOT of the source's TLS table and is private afterwards;
+                 Thread_Init_Run gives it a fresh collector and a fresh exception record *)
+              let tau := tls (if u =? t then l else lu) in
+              advance (set_thr g v (set_tls (linit v p) tau, launch_copy sv tau)) t l s
+            else set_thr g t (l, set_ub s)      (* copying the table of a thread that may be changing it: a data race *)
+        | _, _, _ => set_thr g t (l, set_ub s)
+        end
     | KOp (OJoin u) :: _ =>
         match nth_error (thr g) u with
         | Some (lu, su) =>
@@ -397,10 +420,10 @@ Definition run (sched : list tid) (g : gstate) : gstate := fold_left (fun g t =>
 Definition alone (h : list bool) (l : lstate) : lstate := fold_right lstep l h.
 (* the state a run of Thread object t starts from, given the histories of its earlier, completed runs
    (newest first): the first run starts from linit, a later one from the restart of the previous final state *)
-Fixpoint base (t : tid) (p : list op) (pa : list (list bool)) : lstate :=
+Fixpoint base (t : tid) (p : list op) (tau : list (nat * nat)) (pa : list (list bool)) : lstate :=
   match pa with
-  | [] => linit t p
-  | h :: older => restart (alone h (base t p older)) p
+  | [] => set_tls (linit t p) tau          (* tau = the TLS snapshot a copied Thread object starts with ([] otherwise) *)
+  | h :: older => restart (alone h (base t p tau older)) p
   end.
 (* ... when every trylock succeeds (nobody else is there) *)
 Definition alone_n (n : nat) (l : lstate) : lstate := alone (repeat true n) l.
